@@ -99,26 +99,26 @@ ChebSolve(A, scale, d, c, degree, f, x0) ==
             IN  [x |-> [i \in Idx(n) |-> QAdd(st.x[i], p[i])], p |-> p, alpha |-> alpha]
     IN  FoldLeft(step, [x |-> x0, p |-> RZeroVec(n), alpha |-> RZero], Rng(0, degree - 1)).x
 ChebApply(A, scale, d, c, degree, f) == ChebSolve(A, scale, d, c, degree, f, RZeroVec(A.n))
-\* definition: with B = A (or D^-1 A), Z = (d I - B) / c and T_k the Chebyshev polynomials,
-\*   x_k - x* = T_k(Z) (x_0 - x*) / T_k(d / c)          (c > 0)
-\*   x_k - x* = (I - B / d)^k (x_0 - x*)                 (c = 0)
+\* definition: with B = A (or D^-1 A), Z = (d I - B) / c, T_k the Chebyshev polynomials and
+\* p_k(B) = T_k(Z) / T_k(d / c)   (c > 0),    p_k(B) = (I - B / d)^k   (c = 0)
+\* the error obeys x_k - x* = p_k(B) (x_0 - x*); stated on the (scaled) residual r = D^-1 (f - A x),
+\* which is B times the error, so that no solve is needed:   r_k = p_k(B) r_0
 ChebPolyOK(A, scale, d, c, degree, f, x0, xk) ==
     LET n    == A.n
-        ref  == RefSolve(DenseOf(A), f, n)
-        xs   == ref.x
         dinv == DiagInv(A)
         Bv(v) == LET av == AxQ(A, v) IN IF scale THEN [i \in Idx(n) |-> QMul(dinv[i], av[i])] ELSE av
+        Rs(x) == LET r == ResQ(A, f, x) IN IF scale THEN [i \in Idx(n) |-> QMul(dinv[i], r[i])] ELSE r
         Zv(v) == LET bv == Bv(v) IN [i \in Idx(n) |-> QDiv(QSub(QMul(d, v[i]), bv[i]), c)]
-        e0   == [i \in Idx(n) |-> QSub(x0[i], xs[i])]
-        \* three-term recurrence on vectors and on the scalar normalisation
-        V[k \in 0..degree] == IF k = 0 THEN e0 ELSE IF k = 1 THEN Zv(e0)
+        r0   == Rs(x0)
+        rk   == Rs(xk)
+        V[k \in 0..degree] == IF k = 0 THEN r0 ELSE IF k = 1 THEN Zv(r0)
                               ELSE LET zv == Zv(V[k - 1]) IN [i \in Idx(n) |-> QSub(QMul(R(2), zv[i]), V[k - 2][i])]
         t[k \in 0..degree] == IF k = 0 THEN ROne ELSE IF k = 1 THEN QDiv(d, c)
                               ELSE QSub(QMul(R(2), QMul(QDiv(d, c), t[k - 1])), t[k - 2])
-        W[k \in 0..degree] == IF k = 0 THEN e0
+        W[k \in 0..degree] == IF k = 0 THEN r0
                               ELSE LET bv == Bv(W[k - 1]) IN [i \in Idx(n) |-> QSub(W[k - 1][i], QDiv(bv[i], d))]
-    IN  ref.ok => IF IsZero(c) THEN \A i \in Idx(n) : REq(QSub(xk[i], xs[i]), W[degree][i])
-                  ELSE \A i \in Idx(n) : REq(QMul(QSub(xk[i], xs[i]), t[degree]), V[degree][i])
+    IN  IF IsZero(c) THEN \A i \in Idx(n) : REq(rk[i], W[degree][i])
+        ELSE \A i \in Idx(n) : REq(QMul(rk[i], t[degree]), V[degree][i])
 
 \* ------------------------------------------------------------ the sweep predicates
 \* x1 = x + M^-1 (f - A x), M given by its action v |-> M v
